@@ -246,6 +246,15 @@ fn cmd_gen(args: &[String]) {
                 }
                 with_curve!(*curve, gen_gens_curve, curve, ci as u64, seed, &tier, &mut sink);
             }
+            if CURVES.iter().all(|c| curves_s.split(',').any(|x| x == *c)) {
+                let o = comp_gens::interleave_all();
+                let sh = sink.next % sink.shards.len();
+                sink.next += 1;
+                sink.shards[sh].push_str(&o.coq);
+                sink.order.push((sh, o.id.clone()));
+                sink.impl_obs.push_str(&o.obs);
+                sink.summary.push_str(&o.summary);
+            }
         }
         "lc" => {
             for (ci, curve) in CURVES.iter().enumerate() {
